@@ -74,6 +74,10 @@ func buildC13(tier string, seed int64) *Family {
 		insts = append(insts, metaInst(p, []string{"rel", "true", "paren", "self-union", "notnot"}[k%5], cfg))
 		insts = append(insts, metaInst("/"+p, "abs", cfg))
 	}
+	// the node identity key used for de-duplication (ancestor steps, unions) is injective on
+	// position paths with one- and two-digit sibling indices (C11's identity kernel, element case)
+	insts = append(insts, &vm.Instance{ID: "identity kernel: element vs element on position paths with one- and two-digit indices", Harness: "H_identity",
+		Params: map[string]string{"abstracthash": "1", "kindx": "0", "kindy": "0"}})
 	can := []*vm.Instance{metaInst("*", "abs", cfg), metaInst("following::a", "abs", cfg), metaInst("..", "abs", cfg)}
 	for _, c := range can {
 		c.ID = "canary " + c.ID
